@@ -1,6 +1,7 @@
 package main
 
 import (
+	"go/token"
 	"fmt"
 	"strconv"
 	"go/types"
@@ -34,7 +35,9 @@ type callK func(st *State, res Val)
 
 func (fr *FnRun) call(st *State, site ssa.Instruction, c *ssa.CallCommon, depth int, k callK) {
 	fnv, args := fr.evalCallee(st, c)
+	fr.siteArgs = args
 	fr.checkCallSite(st, site, c)
+	fr.siteArgs = nil
 	fr.callVal(st, site, c, fnv, args, depth, k)
 }
 
@@ -99,6 +102,11 @@ func (fr *FnRun) checkSite(st *State, site ssa.Instruction, desc string) {
 			vars[k] = v
 		}
 		fr.bindLocalsAt(st, vars, site)
+		// arg0, arg1, ...: the arguments of the call (for a statically dispatched method the receiver
+		// is arg0; for an interface call the receiver is not among them)
+		for ai, av := range fr.siteArgs {
+			vars[fmt.Sprintf("arg%d", ai)] = av
+		}
 		if _, isDefer := site.(*ssa.Defer); isDefer {
 			for kk, vv := range fr.pendingRet {
 				vars[kk] = vv
@@ -963,7 +971,9 @@ func (fr *FnRun) runDefers(st *State, depth int, k func(st *State)) {
 	// callsite assertions on a deferred call are checked when it RUNS (the state immediately before
 	// the deferred call, with the pending results of the function in scope)
 	if d.site != nil {
+		fr.siteArgs = d.args
 		fr.checkCallSite(st, d.site, d.call)
+		fr.siteArgs = nil
 	}
 	fr.callVal(st, nil, d.call, d.fnv, d.args, depth, func(st2 *State, _ Val) {
 		fr.runDefers(st2, depth, k)
@@ -1033,10 +1043,54 @@ func (fr *FnRun) loopEnter(st *State, li *loopInfo, head, prev *ssa.BasicBlock) 
 	for _, inv := range spec.Invariants {
 		st.assume(fr.evalBool(inv.E, env2))
 	}
+	// the index of a `range` loop over a slice, array or string length: go/ssa lowers it to
+	// `i = phi[-1, i+1]; if i+1 < n` with n computed before the loop, so at the head i == -1 or
+	// 0 <= i < n (a fact about the lowering, not a user invariant)
+	for _, ph := range phis {
+		if n := rangeLenOf(ph); n != nil {
+			if nv, ok := st.vals[n].(*Term); ok {
+				if iv, ok := st.vals[ph].(*Term); ok {
+					ex.Assumptions["range loops: at the loop head the index is -1 or within [0, len) (go/ssa lowers `range` to i = phi[-1, i+1] guarded by i+1 < len)"] = true
+					st.assume(Or(Eq(iv, Int(-1)), And(Le(Int(0), iv), Lt(iv, nv))))
+					st.assume(Le(Int(-1), iv))
+				}
+			}
+		}
+	}
 	st.note(fmt.Sprintf("loop L%d", li.ordinal))
 	if spec.Decreases != nil {
 		st.vals[decKey(li)] = fr.evalTerm(spec.Decreases, env2)
 	}
+}
+
+// rangeLenOf: for the index phi of a lowered range loop, the length value it is compared with.
+func rangeLenOf(ph *ssa.Phi) ssa.Value {
+	if ph.Comment != "rangeindex" || len(ph.Edges) != 2 {
+		return nil
+	}
+	var inc *ssa.BinOp
+	for _, e := range ph.Edges {
+		if b, ok := e.(*ssa.BinOp); ok && b.Op == token.ADD && b.X == ssa.Value(ph) {
+			if c, ok := b.Y.(*ssa.Const); ok && c.Int64() == 1 {
+				inc = b
+			}
+		}
+	}
+	if inc == nil || inc.Referrers() == nil {
+		return nil
+	}
+	for _, r := range *inc.Referrers() {
+		if cmp, ok := r.(*ssa.BinOp); ok && cmp.Op == token.LSS && cmp.X == ssa.Value(inc) {
+			// the bound is computed outside the loop (before the head)
+			if in, ok := cmp.Y.(ssa.Instruction); ok && in.Block() != nil && in.Block().Dominates(ph.Block()) && in.Block() != ph.Block() {
+				return cmp.Y
+			}
+			if _, ok := cmp.Y.(*ssa.Const); ok {
+				return cmp.Y
+			}
+		}
+	}
+	return nil
 }
 
 type decMarker struct {
